@@ -13,7 +13,11 @@ def run(prog, rep, tier):
                   "position is decided from the patterns (translated to regular expressions; flex's longest-match / earliest-rule discipline and start "
                   "conditions), the action of that rule is interpreted from the source of yylex: N4 ~200 literals covering every documented escape in "
                   "three contexts, raw literals, continuation and %% denote the documented bytes; N5 ~1000 layout variants of three programs covering "
-                  "every token kind give the same token sequence.")
+                  "every token kind give the same token sequence; E11: ~400 query texts (every binary notation against every other in both groupings, "
+                  "suffixes and `w:` binding to one statement, if-then-else incl. dangling else, every grouping construct around every kind of body, "
+                  "binding blocks / let / scopes as in doc/syntax.rst, integer and string literals) go through the interpreted front end (scanner "
+                  "simulation, the LALR automaton bison generated from parser.yy with every semantic action interpreted, tree::simplify) and the "
+                  "interpreted engine; the results must be those of the documented expansion under the reference semantics.")
     rep.not_decided = ("simplifier transparency outside the query family of E10, layout inside programs other than the sampled token sequences, `if` vs its expansion, "
                        "`?(E)` vs `([E] != [])`: these equate results of two programs for all inputs (other families).")
     apply(rep, "N1", "format directives are their documented expansions", r_lex.n1(prog), 5)
@@ -24,6 +28,8 @@ def run(prog, rep, tier):
     apply(rep, "N6", "every %( ... %) splice of a literal is delimited on its own, whatever it or the previous splice contains (scanner simulated)", r_lex.n6(prog), 2)
     import r_stream as _rs10
     apply(rep, "E10", "the compile-time simplification changes no result: tree::simplify interpreted from source, the simplified tree run by the interpreted engine, against the reference semantics of the original query", _rs10.e10(prog, tier), 2)
+    import r_front
+    apply(rep, "E11", "every piece of notation means its documented expansion, with the documented precedence and scoping (query text -> scanner simulation -> LALR automaton of parser.yy with every action interpreted -> tree::simplify -> build_exec -> op engine, all interpreted, against the documented meaning of the notation)", r_front.e11(prog, tier), 6)
     import r_tables
     apply(rep, "U1", "the simplifier's erase-remove drops the whole removed tail", r_tables.u1(prog), 1)
     apply(rep, "Y2", "every %( ... %) splice of a literal is scanned from the same initial state as the directive forms", r_lex.y2(prog), 2)
